@@ -17,20 +17,27 @@ ANCHORS = ['BasicDelayedEventQueue.cpp', 'BasicDelayedEventQueue.h', 'Interprete
 
 def timing_chart(rng, dm):
     k = rng.randint(4, 14)
-    sends = []; cancels = []
-    L = ['<scxml xmlns="http://www.w3.org/2005/07/scxml" version="1.0" datamodel="%s">' % dm, ' <state id="a">', '  <onentry>']
+    sends = []; cancels = []; datas = []
+    L = ['<scxml xmlns="http://www.w3.org/2005/07/scxml" version="1.0" datamodel="%s">' % dm, '@DATA@', ' <state id="a">', '  <onentry>']
     for i in range(k):
         d = rng.randint(5, 400)
-        form = rng.choice(['%dms' % d, '%dms' % d, '%d' % d, '%.3fs' % (d / 1000.0)])
+        form = rng.choice(['%dms' % d, '%dms' % d, '%d' % d, '%.3fs' % (d / 1000.0), ('%.3fs' % (d / 1000.0))[1:], '%d ms' % d])    # 50ms, 50, 0.050s, .050s, 50 ms
         sid = 'id%d' % i if rng.random() < 0.6 else None
         # delayed sends to the session's own internal queue arrive from the timer thread as well
         tgt = '#_internal' if rng.random() < 0.25 else None
-        sends.append({'ev': 'd%d' % i, 'delay_ms': d, 'id': sid, 'form': form, 'target': tgt})
-        L.append('   <send event="d%d" delay="%s"%s%s/>' % (i, form, (' id="%s"' % sid) if sid else '', (' target="%s"' % tgt) if tgt else ''))
+        dattr = 'delay="%s"' % form
+        if dm == 'lua' and rng.random() < 0.2: dattr = 'delayexpr="\'%s\'"' % form        # the delay as the value of an expression
+        idattr = (' id="%s"' % sid) if sid else ''
+        if dm == 'lua' and sid and rng.random() < 0.3:
+            # the send id is generated and stored in a variable (idlocation); it is cancelled through sendidexpr
+            idattr = ' idlocation="v%d"' % i; sid = 'loc:v%d' % i; datas.append('v%d' % i)
+        sends.append({'ev': 'd%d' % i, 'delay_ms': d, 'id': sid, 'form': dattr, 'target': tgt})
+        L.append('   <send event="d%d" %s%s%s/>' % (i, dattr, idattr, (' target="%s"' % tgt) if tgt else ''))
     # cancel some of the later ones right away (completed long before they are due)
     for s in sends:
         if s['id'] and s['delay_ms'] > 150 and rng.random() < 0.4:
-            cancels.append(s['id']); L.append('   <cancel sendid="%s"/>' % s['id'])
+            cancels.append(s['id'])
+            L.append(('   <cancel sendidexpr="%s"/>' % s['id'][4:]) if s['id'].startswith('loc:') else ('   <cancel sendid="%s"/>' % s['id']))
     # delayed sends that cannot be dispatched when they are due (no parent session, no such invocation): error.communication, once each
     nbad = 0
     if rng.random() < 0.4:
@@ -47,6 +54,7 @@ def timing_chart(rng, dm):
         L += ['  <transition event="rep"><send event="again" id="idrep" delay="%dms"/></transition>' % rep['delay_ms'], '  <transition event="again"/>',
               '  <transition event="docancelrep"><cancel sendid="idrep"/></transition>']
     L += [' </state>', '</scxml>']
+    L[1] = (' <datamodel>' + ''.join('<data id="%s" expr="\'\'"/>' % v for v in datas) + '</datamodel>') if datas else ''
     return '\n'.join(L), sends, cancels, nbad, rep
 
 
@@ -56,7 +64,7 @@ def check_timing(recs, sends, cancels):
     for r in recs:
         a = r[4].split(' ')
         if r[3] == 'CB' and a[1] == 'send': cb[a[2]] = r[1]
-        elif r[3] == 'CA' and a[1] == 'cancel': ca_cancel[a[2]] = r[1]
+        elif r[3] == 'CA' and a[1] == 'cancel': ca_cancel[('loc:' + a[2][5:]) if a[2].startswith('expr:') else a[2]] = r[1]
         elif r[3] == 'E' and a[1].startswith('d') and a[1][1:].isdigit(): deliv[a[1]].append(r[1])
     for s in sends:
         ev = s['ev']; t0 = cb.get(ev)
